@@ -484,16 +484,15 @@ impl Decompressor {
             .ok_or_else(|| anyhow!("Reference stream not found: {}", ref_stream_name))?;
 
         let (mut data, metadata) = self.archive.get_part_by_id(stream_id, 0)?;
-        // Decompress if needed; metadata holds original length for packed format
-        let decompressed = if data.is_empty() {
-            Vec::new()
-        } else if data.last() == Some(&0) {
-            // Plain ZSTD stream with marker 0
-            data.pop();
-            decompress_segment_with_marker(&data, 0)?
+        // Decompress if needed: metadata 0 means the reference is stored raw (no marker byte),
+        // otherwise the last byte is the marker (0 = plain ZSTD, 1 = tuple-packed) - the same
+        // convention get_segment() uses, so both paths cache identical bytes.
+        let decompressed = if metadata == 0 {
+            data
         } else {
-            // Tuple-packed with marker 1
-            let marker = data.pop().unwrap();
+            let marker = data
+                .pop()
+                .ok_or_else(|| anyhow!("Empty compressed reference data"))?;
             decompress_segment_with_marker(&data, marker)?
         };
 
